@@ -230,6 +230,11 @@ class Keys:
             self.add(f"k{i}_es384", ec.generate_private_key(ec.SECP384R1()), "ec", 384)
             self.add(f"k{i}_es521", ec.generate_private_key(ec.SECP521R1()), "ec", 521)
             self.add(f"k{i}_ed", ed25519.Ed25519PrivateKey.generate(), "ed25519", 0)
+        # rotated keys: names with a dot; the files named after the stem (k0_ed.pem ...) are OTHER keys of the same type
+        self.add("k0_es256.v2", ec.generate_private_key(ec.SECP256R1()), "ec", 256)
+        self.add("k0_es384.v2", ec.generate_private_key(ec.SECP384R1()), "ec", 384)
+        self.add("k0_es521.v2", ec.generate_private_key(ec.SECP521R1()), "ec", 521)
+        self.add("k0_ed.v2", ed25519.Ed25519PrivateKey.generate(), "ed25519", 0)
         self.add("k_ed448", ed448.Ed448PrivateKey.generate(), "ed448", 0)
         self.add("k_rsa", rsa.generate_private_key(65537, 1024), "other", 0)
 
@@ -241,7 +246,9 @@ class Keys:
         self.keys[name] = (kind, ks, key)
 
     def for_alg(self, alg, i=0):
-        """Name of the i-th key whose type matches the algorithm."""
+        """Name of the i-th key whose type matches the algorithm (every fourth one is a dotted name)."""
+        if i % 4 == 3:
+            return f"k0_es{KEY_SIZE[alg]}.v2" if alg in KEY_SIZE else "k0_ed.v2"
         i %= self.n
         return f"k{i}_es{KEY_SIZE[alg]}" if alg in KEY_SIZE else f"k{i}_ed"
 
